@@ -1,5 +1,5 @@
 """Texts of MANIFEST.json, per property."""
-HOOK_COMMITS = []
+HOOK_COMMITS = ["7fd8c4148b93d6fd3eeacd7bbf1d51535b0cb346", "cacdbfbc6d0539939e0348e9afd9daf483a6bfcb", "d0c7659d4902270bddd9919b879e34430e98a4dd"]
 NOTES = ("Every check: (A) rebuilds the Coq development and re-reads Print Assumptions of coq/Props/<id>.v; (B) rebuilds the Go harness "
          "against /repo's working tree and compares the real code with the model on generated cases evaluated by coqc; (C) searches for a "
          "concrete failing input. A broken proof or correspondence without a concrete input is reported as VIOLATION ... no-failing-input-found.")
